@@ -397,7 +397,7 @@ class C20(Check):
         return st.one_of(unit_case(), e2e_case(), e2e_case(), e2e_case())
 
     def examples(self, tier):
-        return 56 if tier == "quick" else 2500
+        return 64 if tier == "quick" else 2500
 
     def budget_s(self, tier):
         return 200.0 if tier == "quick" else 1700.0
@@ -535,10 +535,8 @@ class C20(Check):
                 rules = rulerefs.noqa_rules(d["refs"], refmap, allowed)
                 md.append([d["line"], d["col"], rules, d["action"]])
             hb = [hiders(md, c, l) for (c, l, _p, _d) in T]
-            exp = sorted(v for v, h in zip(T, hb) if not h)
-            hidden = [v for v, h in zip(T, hb) if h]
             # classes
-            if hidden:
+            if any(hb):
                 out.label("e2e:something-hidden(%s)" % mode)
             for v, h in zip(T, hb):
                 if h:
@@ -549,78 +547,102 @@ class C20(Check):
                 rg = any(a is not None and l <= v[1] and covers(r, v[0]) for (l, _c, r, a) in md)
                 if pl and rg:
                     out.nontrivial = True
-            # (1) hidden exactly
-            if sorted(O) != exp:
-                os_, es = list(O), list(exp)
-                extra = list(os_)
-                for v in es:
-                    if v in extra:
-                        extra.remove(v)
-                missing = list(es)
-                for v in os_:
-                    if v in missing:
-                        missing.remove(v)
-                for v in extra:
-                    if v in T:
-                        h = hb[T.index(v)]
-                        syn = {md_i: dirs[md_i]["syntax"] for md_i in h}
-                        kinds = set(syn.values())
-                        cause = "unknown"
-                        if any(a == "enable" and r is not None and not r and l <= v[1] for (l, _c, r, a) in md):
-                            cause = "range-directive-with-empty-ruleset"
-                        out.fail("%s at line %d should be hidden by %s but is reported. sql=%r" % (
-                            v[0], v[1], [dirs[i]["text"] for i in h], sql),
-                            clause="e2e-hide", direction="not-hidden", mode=mode, mask=mask_kind, cause=cause,
-                            code=v[0] if v[0] in rulerefs.SPECIALS else "lint",
-                            hider="block" if kinds == {"block"} else ("inline" if kinds == {"inline"} else "mixed"))
-                    else:
-                        out.fail("violation %s reported with noqa on but absent with noqa off. sql=%r" % (v, sql),
-                                 clause="e2e-hide", direction="new-violation", mode=mode, mask=mask_kind)
-                for v in missing:
-                    cause = "unknown"
-                    if any(a == "disable" and r is not None and not r and l <= v[1] for (l, _c, r, a) in md):
-                        cause = "range-directive-with-empty-ruleset"
-                    elif mask_kind == "source" and any(
-                            d["syntax"] == "block" and m[3] == "enable" and m[0] <= v[1] and covers(m[2], v[0])
-                            for d, m in zip(dirs, md)):
-                        cause = "block-enable-before-it"
-                    out.fail("%s at line %d:%d is hidden but no directive accounts for it (directives %s). sql=%r" % (
-                        v[0], v[1], v[2], [(d["line"], d["text"]) for d in dirs], sql),
-                        clause="e2e-hide", direction="wrongly-hidden", mode=mode, mask=mask_kind,
-                        code=v[0] if v[0] in rulerefs.SPECIALS else "lint", cause=cause)
-                continue
-            # (2) unused warnings
-            never, sole = unused_bounds(md, [h for h in hb if h])
-            keyed = {}
-            for i, d in enumerate(dirs):
-                keyed.setdefault((d["line"], d["text"]), []).append(i)
-            reported = set()
-            unknown_w = []
-            for (wl, wd) in W:
-                hit = [k for k in keyed if k[0] == wl and wd == "Unused noqa: %r" % k[1]]
-                if not hit:
-                    unknown_w.append((wl, wd))
-                else:
-                    reported.add(hit[0])
-            if unknown_w:
-                out.fail("unused-noqa warning that matches no directive: %s sql=%r" % (unknown_w[:3], sql),
-                         clause="e2e-unused", kind="unattributable-warning", mode=mode, mask=mask_kind)
-            for key, idxs in keyed.items():
-                if len(idxs) != 1:
-                    continue  # same text twice on one line: attribution of the warning is ambiguous
-                i = idxs[0]
-                d = dirs[i]
-                if i in never and key not in reported:
-                    cause = "range-directive-with-empty-ruleset" if (
-                        d["action"] == "disable" and md[i][2] is not None and not md[i][2]) else "other"
-                    out.fail("directive %r on line %d could not hide anything but no unused warning. sql=%r warnings=%s"
-                             % (d["text"], d["line"], sql, W), clause="e2e-unused", kind="missing-warning",
-                             mode=mode, mask=mask_kind, syntax=d["syntax"], cause=cause)
-                if i in sole and key in reported:
-                    out.fail("directive %r on line %d is the only possible hider of a hidden violation but is "
-                             "reported unused. sql=%r" % (d["text"], d["line"], sql), clause="e2e-unused",
-                             kind="spurious-warning", mode=mode, mask=mask_kind, syntax=d["syntax"])
+            fails = self.judge(T, O, W, dirs, md, sql, mode, mask_kind)
+            if fails:
+                # Is the disagreement exactly what an already recorded defect produces?  The observation is compared
+                # with the model of that defect; only a perfect match is attributed to it, everything else is raised.
+                keep_seen = [i for i, d in enumerate(dirs) if not (mask_kind == "source" and d["syntax"] == "block")]
+                unseen_blocks = len(keep_seen) < len(dirs)
+                empty_rng = [i for i, m in enumerate(md) if m[3] is not None and m[2] is not None and not m[2]]
+                variants = []
+                if unseen_blocks:
+                    variants.append(("block-directives-unseen-without-tree", keep_seen, False))
+                if mode == "except" and empty_rng:
+                    variants.append(("empty-ruleset-range-directive-acts-on-all-rules", list(range(len(dirs))), True))
+                    if unseen_blocks:
+                        variants.append(("block-directives-unseen-without-tree+empty-ruleset-range-directive-acts-on-all-rules",
+                                         keep_seen, True))
+                for name, keep, widen in variants:
+                    dirs_v = [dirs[i] for i in keep]
+                    md_v = [list(md[i]) for i in keep]
+                    if widen:
+                        for m in md_v:
+                            if m[3] is not None and m[2] is not None and not m[2]:
+                                m[2] = None
+                    if not self.judge(T, O, W, dirs_v, md_v, sql, mode, mask_kind):
+                        fails = [("%s [observation is exactly what the recorded defect '%s' produces]" % (fails[0][0], name),
+                                  {"clause": "e2e-explained", "explained_by": name})]
+                        break
+                for detail, sig in fails:
+                    out.fail(detail, **sig)
         return out
+
+    def judge(self, T, O, W, dirs, md, sql, mode, mask_kind):
+        """Compare one observation (reported violations O, unused warnings W) with the model for the directives
+        `dirs` / `md` -> list of (detail, signature)."""
+        fails = []
+        hb = [hiders(md, c, l) for (c, l, _p, _d) in T]
+        exp = sorted(v for v, h in zip(T, hb) if not h)
+        # (1) hidden exactly
+        if sorted(O) != exp:
+            extra = list(O)
+            for v in exp:
+                if v in extra:
+                    extra.remove(v)
+            missing = list(exp)
+            for v in O:
+                if v in missing:
+                    missing.remove(v)
+            for v in extra:
+                if v in T:
+                    h = hb[T.index(v)]
+                    kinds = {dirs[i]["syntax"] for i in h}
+                    fails.append(("%s at line %d should be hidden by %s but is reported. sql=%r" % (
+                        v[0], v[1], [dirs[i]["text"] for i in h], sql),
+                        dict(clause="e2e-hide", direction="not-hidden", mode=mode, mask=mask_kind,
+                             code=v[0] if v[0] in rulerefs.SPECIALS else "lint",
+                             hider="block" if kinds == {"block"} else ("inline" if kinds == {"inline"} else "mixed"))))
+                else:
+                    fails.append(("violation %s reported with noqa on but absent with noqa off. sql=%r" % (v, sql),
+                                  dict(clause="e2e-hide", direction="new-violation", mode=mode, mask=mask_kind)))
+            for v in missing:
+                fails.append(("%s at line %d:%d is hidden but no directive accounts for it (directives %s). sql=%r" % (
+                    v[0], v[1], v[2], [(d["line"], d["text"]) for d in dirs], sql),
+                    dict(clause="e2e-hide", direction="wrongly-hidden", mode=mode, mask=mask_kind,
+                         code=v[0] if v[0] in rulerefs.SPECIALS else "lint")))
+            return fails
+        # (2) unused warnings
+        never, sole = unused_bounds(md, [h for h in hb if h])
+        keyed = {}
+        for i, d in enumerate(dirs):
+            keyed.setdefault((d["line"], d["text"]), []).append(i)
+        reported = set()
+        unknown_w = []
+        for (wl, wd) in W:
+            hit = [k for k in keyed if k[0] == wl and wd == "Unused noqa: %r" % k[1]]
+            if not hit:
+                unknown_w.append((wl, wd))
+            else:
+                reported.add(hit[0])
+        if unknown_w:
+            fails.append(("unused-noqa warning that matches no directive: %s sql=%r" % (unknown_w[:3], sql),
+                          dict(clause="e2e-unused", kind="unattributable-warning", mode=mode, mask=mask_kind)))
+        for key, idxs in keyed.items():
+            if len(idxs) != 1:
+                continue  # same text twice on one line: attribution of the warning is ambiguous
+            i = idxs[0]
+            d = dirs[i]
+            if i in never and key not in reported:
+                fails.append(("directive %r on line %d could not hide anything but no unused warning. sql=%r warnings=%s"
+                              % (d["text"], d["line"], sql, W),
+                              dict(clause="e2e-unused", kind="missing-warning", mode=mode, mask=mask_kind,
+                                   syntax=d["syntax"])))
+            if i in sole and key in reported:
+                fails.append(("directive %r on line %d is the only possible hider of a hidden violation but is "
+                              "reported unused. sql=%r" % (d["text"], d["line"], sql),
+                              dict(clause="e2e-unused", kind="spurious-warning", mode=mode, mask=mask_kind,
+                                   syntax=d["syntax"])))
+        return fails
 
     @staticmethod
     def ref_class(r):
